@@ -117,7 +117,7 @@ class Gen:
         where `<` / `<=` slips and zero-length items show"""
         rng = self.rng
         n = rng.randint(lo_n, hi_n)
-        if n >= 2 and rng.random() < 0.25:
+        if n >= 2 and rng.random() < 0.4:
             h = self.H()
             cuts = sorted(rng.sample(range(0, h + 1), min(n + 1, h + 1)))
             chain = list(zip(cuts, cuts[1:]))
@@ -185,7 +185,7 @@ class Gen:
         if rng.random() < 0.3:
             d["release"] = rng.choice([0, 1, 2, 3, 5])
         if rng.random() < 0.35:
-            d["due"] = rng.choice([3, 5, 8, self.H(), self.H() + 2])
+            d["due"] = rng.choice([3, 5, 8, self.H(), self.H() + 2, 0, 1])
             d["deadline"] = rng.random() < 0.6
         if rng.random() < 0.3:
             d["work"] = rng.choice([0, 1, 3, 6, 10])
@@ -665,8 +665,11 @@ class Gen:
             return self.run_focus()
         kinds = list(self.w)
         weights = [self.w[k] for k in kinds]
-        # always start with a couple of tasks so that references resolve
-        for _ in range(2):
+        # always start with a couple of tasks so that references resolve (a candidate that would make the problem
+        # infeasible is dropped, hence the loop)
+        for _ in range(8):
+            if len(self.real.tasks) >= 2:
+                break
             self.g_task()
         n = self.rng.randint(max(3, self.size // 2), self.size)
         early = self.rng.randrange(n) if (self.rng.random() < 0.25 and not self.simple) else -1
